@@ -1,6 +1,7 @@
 package commitlog
 
 import (
+	"io"
 	"os"
 	"sort"
 )
@@ -46,6 +47,11 @@ func findSegmentIndexByTimestamp(segments []*segment, timestamp int64) (int, err
 		// Read the first entry in the segment to determine the base timestamp.
 		var entry entry
 		if e := segments[i].Index.ReadEntryAtLogOffset(&entry, 0); e != nil {
+			if e == io.EOF {
+				// The segment is empty (a freshly rolled active segment).
+				// Whatever it will hold is newer than any existing message.
+				return true
+			}
 			err = e
 			return true
 		}
